@@ -112,6 +112,7 @@ def run(ctx):
     from . import c11
     c11.write_through(ctx, "C20.R6")
     r7_length_authority(ctx)
+    r8_term_lists(ctx)
 
 
 def r1_key_domain(ctx):
@@ -374,6 +375,41 @@ def r7_length_authority(ctx, rule="C20.R7"):
     ctx.floor(rule, "functions pairing InteractionsEncoder outputs with weight vectors", n, 1)
 
 
+def r8_term_lists(ctx, rule="C20.R8"):
+    """what reaches InteractionsEncoder as its term list: a term given as ONE string is one term, and the 'no context' test that strips the x's from the terms
+    is the same notion of empty the later encode() calls use."""
+    ctx.rule(rule, "term lists handed to InteractionsEncoder: where a constructor accepts a single string for its terms it wraps it (`[s]`, never `list(s)`, which splits 'xa' into 'x' and 'a'); "
+                   "where the x namespace is stripped from the terms for an empty context, the test is the falsiness of the very value later passed as `x=<value> or []`")
+    n = 0
+    for rel, mod in sorted(ctx.model.modules.items()):
+        if rel.startswith("coba/tests") or rel == "coba/encodings.py":
+            continue
+        if "InteractionsEncoder" not in mod.src:
+            continue
+        for fn in [x for x in ast.walk(mod.tree) if isinstance(x, ast.FunctionDef)]:
+            from ..model import qualname
+            qual = qualname(fn)
+            for st in [x for x in walk_shallow(fn) if isinstance(x, ast.If) and isinstance(x.test, ast.Call) and call_name(x.test) == "isinstance" and len(x.test.args) == 2 and unparse(x.test.args[1]) == "str"]:
+                V = unparse(st.test.args[0])
+                if "feature" not in V.lower() and "term" not in V.lower() and "interaction" not in V.lower():
+                    continue
+                for b in [b for b in st.body if isinstance(b, ast.Assign) and unparse(b.targets[0]) == V]:
+                    n += 1
+                    ctx.touch(rel, qual)
+                    ctx.ob(rule, rel, qual, b, "a single string is wrapped as one term", unparse(b.value) == f"[{V}]", detail={"value": unparse(b.value)})
+            strips = [st for st in ast.walk(fn) if isinstance(st, ast.If) and any(isinstance(b, ast.Assign) and "InteractionsEncoder(" in unparse(b.value) and ".replace('x', '')" in unparse(b.value) for b in st.body)]
+            for st in strips:
+                n += 1
+                ctx.touch(rel, qual)
+                t = st.test
+                subject = unparse(t.operand) if isinstance(t, ast.UnaryOp) and isinstance(t.op, ast.Not) else None
+                enc_calls = [c for c in ast.walk(fn) if isinstance(c, ast.Call) and call_tail(c) == "encode" and any(k.arg == "x" for k in c.keywords)]
+                xs = {unparse(k.value) for c in enc_calls for k in c.keywords if k.arg == "x"}
+                ok = subject is not None and bool(xs) and all(x_ in (f"{subject} or []", subject) for x_ in xs)
+                ctx.ob(rule, rel, qual, st, "the x namespace is stripped from the terms exactly when the context is empty in the sense of `context or []`", ok, detail={"test": unparse(t), "x arguments": sorted(xs)})
+    ctx.floor(rule, "term-list normalisations outside the encoder", n, 3)
+
+
 def _memo_iter(tree):
     from ..mutate import find_def
     cls = find_def(tree, "SparseDense")
@@ -395,6 +431,8 @@ def _memo_iter(tree):
 
 
 CONTROLS = [
+    ("a string of terms is split into characters", "coba/environments/synthetics.py", M.replace_expr("LinearSyntheticSimulation.__init__", "[reward_features]", "list(reward_features)"), "C20.R8"),
+    ("LinUCB strips x terms only for None", "coba/learners/linucb.py", M.replace_expr("LinUCBLearner._initialize", "not context", "context is None"), "C20.R8"),
     ("monomials counted by a formula", "coba/environments/synthetics.py", M.replace_expr("LinearSyntheticSimulation.read", "len(feats_encoder.encode(x=[1] * n_context_features, a=[1] * n_action_features))",
         "sum(__import__('math').comb(n_context_features, f.count('x')) * __import__('math').comb(n_action_features, f.count('a')) for f in reward_features)"), "C20.R7"),
     ("SparseDense memoises its sorted items", "coba/pipes/rows.py", _memo_iter, "C20.R6"),
